@@ -19,3 +19,4 @@ import AITB.Props.C03AsFound
 import AITB.Props.C03Sarsop
 import AITB.Props.C03Prom
 import AITB.Props.C03GapMin
+import AITB.Props.C03GapMinLb
